@@ -11,6 +11,7 @@ import subprocess
 import sys
 
 VERIF = os.path.dirname(os.path.dirname(os.path.abspath(__file__)))
+REPO = os.environ.get('VERIF_REPO', '/repo')
 
 
 def sh(cmd, cwd=None, env=None, timeout=3600):
@@ -24,20 +25,20 @@ def main():
     keep = sys.argv[4] if len(sys.argv) > 4 and sys.argv[3] == '--keep' else None
     patch = os.path.join(d, 'patch.diff')
     demo = os.path.join(d, 'demo.py')
-    env = dict(os.environ, PYTHONPATH='/repo')
+    env = dict(os.environ, PYTHONPATH=REPO)
     res = dict(property=prop, source=d)
-    rc, out = sh('git -C /repo status --porcelain')
+    rc, out = sh('git -C {} status --porcelain'.format(REPO))
     if out.strip():
-        print('refusing: /repo is not clean:\n' + out)
+        print('refusing: the repository is not clean:\n' + out)
         return 2
     rc0, out0 = sh('/venv/bin/python {}'.format(demo), env=env)
     res['demo_without_patch'] = rc0
-    rc, out = sh('git -C /repo apply {}'.format(patch))
+    rc, out = sh('git -C {} apply {}'.format(REPO, patch))
     if rc != 0:
         print('patch does not apply:', out)
         return 2
     try:
-        rc, out = sh('cd /repo && /venv/bin/python -m pytest -q -p no:cacheprovider tests 2>&1 | tail -3')
+        rc, out = sh('cd {} && /venv/bin/python -m pytest -q -p no:cacheprovider tests 2>&1 | tail -3'.format(REPO), env=env)
         res['tests'] = out.strip().split('\n')[-1]
         rc1, out1 = sh('/venv/bin/python {}'.format(demo), env=env)
         res['demo_with_patch'] = rc1
@@ -53,7 +54,7 @@ def main():
             except Exception as e:  # noqa
                 res['violation'] = 'unreadable replay: {}'.format(e)
     finally:
-        sh('git -C /repo checkout -- . ; rm -f /repo/cobertura.xml')
+        sh('git -C {0} checkout -- . ; rm -f {0}/cobertura.xml'.format(REPO))
     sh('/venv/bin/python {}/harness/gen_all.py'.format(VERIF))
     print(json.dumps(res, indent=1))
     if keep:
